@@ -184,7 +184,7 @@ func emitGo(name string, g *GoBind, id idf) string {
 	})
 	table(&b, "tags", g.Tags, func(x TagF) (string, string) {
 		return fmt.Sprintf("⟨%s, %d, %d, %d, %d, %d, %v, %s, %v, %v, %v, %v, %d, %v, %s, %v, %v, %d⟩", lnat(id, x.Struct), id(x.Name), x.Wire, x.Number,
-			x.Label, id(x.JSON), x.Proto3, lnat(id, x.Enum), x.Oneof, x.Packed, x.Rep, x.Ptr, x.Scalar, x.Qual, lnat(id, x.Ident), x.IsMap, x.Wrapped, id(x.BadExtra)),
+				x.Label, id(x.JSON), x.Proto3, lnat(id, x.Enum), x.Oneof, x.Packed, x.Rep, x.Ptr, x.Scalar, x.Qual, lnat(id, x.Ident), x.IsMap, x.Wrapped, id(x.BadExtra)),
 			usc(x.Struct) + "." + x.Name + " #" + fmt.Sprint(x.Number)
 	})
 	table(&b, "oneofs", g.Oneofs, func(x GoOneofF) (string, string) {
